@@ -481,6 +481,32 @@ def stat_runs(seed, tier):
             S.events.clear()
             S.keep.clear()
             S.frames.clear()
+    # generators and coroutines that finish at their first entry (one call event each): they are thinned like every other call
+    gfun, cfun = env["M"].g_mod, env["M"].c_mod
+
+    def call_resumable(fn, name, kind, times):
+        for _ in range(times):
+            S.actions, S.pos = [{"op": "Return", "how": "expr", "val": 1, "id": None}], 0
+            S._pending_entry = {"ev": "Call", "f": name, "kind": "plain", "wanted": True, "caller": 0, "catch": True, "args": []}
+            obj = fn(1)
+            try:
+                next(obj) if kind == "gen" else obj.send(None)
+            except StopIteration:
+                pass
+            S.events.clear()
+            S.keep.clear()
+            S.frames.clear()
+    S.reset([], {}, absmodel.abs_value)
+    ngen = 3000 if tier == "quick" else 30000
+    for rate in (3, 20):
+        for fn, name, kind in ((gfun, "g_mod", "gen"), (cfun, "c_mod", "coro")):
+            Counting.n = 0
+            random.seed(seed * 1000 + 900 + rate)
+            with mtt.trace_calls(Counting(), 0, lambda code: code.co_filename == env["traced_path"], rate):
+                call_resumable(fn, name, kind, ngen)
+            lo, hi = binom_interval(ngen, 1.0 / rate)
+            out.append({"rate": rate, "n": ngen, "traced": Counting.n, "lo": lo, "hi": hi, "code_filter": True,
+                        "program": "%s calls that finish at their first entry" % ("generator" if kind == "gen" else "coroutine")})
     cfg = Cfg()
     S.reset([], {}, absmodel.abs_value)
     nb = 2000 if tier == "quick" else 20000
